@@ -119,6 +119,9 @@ class T:
                 "for (var I = %d; I <= %d; ++I)" % (lo, hi), "for (auto I = %d; I < %d; ++I)" % (lo, hi), "for (var I = %d; I < %d; I += 1)" % (lo, hi),
                 "for (var I = %du; I < %du; ++I)" % (abs(lo), hi), "for (var I = %dl; I < %dl; ++I)" % (lo, hi), "for (var I = %d.0; I < %d.0; ++I)" % (lo, hi),
                 "for (var I = %d; %d > I; ++I)" % (lo, hi),
+                # bounds that are not an int: fractional, beyond INT_MAX, negative fractional, float typed
+                "for (var I = %d; I < %d.5; ++I)" % (lo, hi), "for (var I = %d; I < %d.25f; ++I)" % (lo, hi), "for (var I = %d; I < 3000000000; ++I)" % lo,
+                "for (var I = %d; I < 4294967297l; ++I)" % lo, "for (var I = %d; I < -0.5; ++I)" % lo,
                 "for (var I = %d; OTHER < %d; ++I)" % (lo, hi), "for (var I = %d; I < %d; ++OTHER)" % (lo, hi), "for (var I = %d; OTHER < %d; ++OTHER)" % (lo, hi)]).replace("I", v)
             other = self.name("o")
             uses_other = "OTHER" in head
@@ -129,6 +132,8 @@ class T:
                 "%s = fun[I]() { I }" % w, "%s.push_back(fun[I]() { I * 10 })" % w, "%s := I" % w, "%s.push_back_ref(I)" % w,
                 "for (var J = 0; J < 2; ++J) { rec(I * 10 + J) }"]).replace("I", v)
             pre, post = [], []
+            if "3000000000" in head or "4294967297" in head:
+                body = "if (%s > 3) { break }; " % v + body
             if uses_other:
                 # the other variable drives (or is driven by) the header: make the loop terminate by advancing both in the body
                 pre = ["var %s = %d" % (other, lo - 1 - self.i(0, 1))]     # not in step with the counter: honouring or ignoring the header is observable
